@@ -10,7 +10,8 @@ Inductive cmd :=
 | Write (k : key) (v : value)
 | Read (k : key) (id : N)
 | NotifyRead (k : key) (id : N)
-| Reopen.                                  (* all handles dropped, database reopened *)
+| Reopen                                   (* all handles dropped, database reopened *)
+| Cancel (id : N).                         (* the notify-read with this id is abandoned: its future is dropped *)
 
 Inductive sout := ORead (id : N) (v : option value) | ONotify (id : N) (v : value).
 
@@ -32,6 +33,8 @@ Definition sstep (s : St) (c : cmd) : St * list sout :=
       | None => (mkSt (db s) (obl s ++ [(k, id)]), [])
       end
   | Reopen => (mkSt (db s) [], [])
+  (* the real store keeps the dead sender until the key is written, where the send fails silently: unobservable *)
+  | Cancel id => (mkSt (db s) (filter (fun e => negb (snd e =? id)) (obl s)), [])
   end.
 
 Fixpoint srun (s : St) (cs : list cmd) : St * list sout :=
